@@ -38,4 +38,7 @@ def canon (m : Msg) : String :=
 
 def WF (m : Msg) : Prop := C033.WF m.toStatus
 
+/-- run-time test of `WF` -/
+def wfBool (m : Msg) : Bool := C033.wfBool m.toStatus
+
 end PyAirtouch.Model.At5.C032
